@@ -294,7 +294,7 @@ def draw_sensor_block(rng: random.Random, kind: str, coarse: bool, narrow_fov: b
 def network_case(rng: random.Random, *, nsteps=None, step=None, kinds=("optical", "radar", "adv_radar"), n_sensors=None, n_targets=None,
                  coarse=None, narrow_fov=False, decision=None, reward=None, model=None, two_engines_p=0.2, space_sensor_p=0.15,
                  geo_p=0.6, start=None, out_mult=None, estimation=None, noise=None, truth_only=False, background=None,
-                 placed_p=0.85, masks=True, integrator=None, events=None, slow_slew=False, edge_p=0.0, cluster_p=0.0) -> dict:
+                 placed_p=0.85, masks=True, integrator=None, events=None, slow_slew=False, edge_p=0.0, cluster_p=0.0, id_stride=1) -> dict:
     """A complete small scenario: 1-4 sensors, 1-5 targets placed by inverse geometry."""
     import numpy as np
 
@@ -316,7 +316,7 @@ def network_case(rng: random.Random, *, nsteps=None, step=None, kinds=("optical"
         if rng.random() < space_sensor_p:
             orb = draw_orbit(rng, rng.choice(["leo", "meo", "geo"]))
             blk["elevation_range"] = [-89.9, 89.9]
-            sensors.append(space_sensor(60001 + i, orb["pos"], orb["vel"], blk))
+            sensors.append(space_sensor(60001 + i * id_stride, orb["pos"], orb["vel"], blk))
             sites.append(None)
         else:
             if sites and sites[0] is not None and rng.random() < 0.5:
@@ -327,7 +327,7 @@ def network_case(rng: random.Random, *, nsteps=None, step=None, kinds=("optical"
                 alt = b["altitude"]
             else:
                 lat, lon, alt = draw_site(rng)
-            sensors.append(ground_sensor(90001 + i, lat, lon, alt, blk))
+            sensors.append(ground_sensor(90001 + i * id_stride, lat, lon, alt, blk))
             sites.append({"latitude": lat, "longitude": lon, "altitude": alt})
     ground = [s for s in sites if s is not None]
     targets = []
